@@ -100,6 +100,8 @@ class Program:
                             for (tr, name), fl in self.impl_index.items():
                                 if tr.split("::", 1)[0] != ext_crate and not (ext_crate in ("core", "alloc", "std") and tr.split("::", 1)[0] in ("core", "alloc", "std")):
                                     continue
+                                if not _plausible_callback(tgt, tr):
+                                    continue
                                 for g in fl:
                                     if g.b.get("impl_adt") == adt:
                                         out.append((g, t, bi))
@@ -153,6 +155,26 @@ class Program:
                 if rx.search(tgt):
                     out.append((f, bi, t))
         return out
+
+
+_CONVERSION_TRAITS = {
+    "core::str::traits::FromStr": ("parse",),
+    "core::fmt::Display": ("to_string", "fmt", "format", "write_fmt"),
+    "core::fmt::Debug": ("fmt", "format", "write_fmt", "unwrap", "expect", "unwrap_err", "expect_err"),
+    "core::convert::TryFrom": ("try_into", "try_from"),
+    "core::convert::From": ("into", "from", "map_err", "from_residual"),
+    "core::convert::Into": ("into",),
+}
+
+
+def _plausible_callback(ext_callee, trait):
+    """An external std/core function only calls back into conversion/formatting trait impls of its type
+    arguments when it is the matching entry point (parse -> FromStr, to_string -> Display, ...)."""
+    names = _CONVERSION_TRAITS.get(trait)
+    if names is None:
+        return True
+    last = ext_callee.rsplit("::", 1)[-1]
+    return last in names
 
 
 def _adts_in_type(ts):
